@@ -44,6 +44,19 @@ def obligations(ctx):
         for (nn, rsz, asz, nrows, ncols) in ((8, 1, 2, 2, 2), (8, 3, 1, 3, 4), (8, 5, 3, 2, 4), (8, 0, 2, 2, 3), (8, 2, 0, 2, 2), (4, 3, 2, 2, 4), (16, 3, 2, 2, 4)):
             for avx in (0, 1):
                 obs.append(ag.api_writeset_ob(t, api, nn, 0, avx, rsz, asz, nrows=nrows, ncols=ncols))
+    # (1') coefficient-space entry points take the module too: on exactly-sized output buffers every access of a call stays inside the limbs it was given
+    # (a kernel that re-stores words next to its output - same values - is a data race with the owner of those words; here it is an out-of-bounds access)
+    from vf.props import vecops_gen as vg
+    for (op, var) in vg.PAIRS:
+        if var != 0:
+            continue
+        for nn in (2, 4):
+            for avx in (0, 1):
+                if op in (5, 6):
+                    obs.append(vg.vec_ob(op, var, nn, 1, 1, 0, (0, 0, 0), avx, pmode=0, p=3, tag="own-extent/"))
+                else:
+                    obs.append(vg.vec_ob(op, var, nn, 1, 1 if op else 0, 1 if op in (3, 4) else 0, (0, 0, 0), avx, tag="own-extent/"))
+                    obs.append(vg.vec_ob(op, var, nn, 3, 2 if op else 0, 1 if op in (3, 4) else 0, (0, 0, 0), avx, tag="own-extent/"))
     # (3) warm-up protocol of the *_simple functions
     obs += [o for o in c15.history_obs(ctx) if "/avx=1" in o.name or "same-dim" in o.name]
     # (4) thread-local caches under call-granularity interleavings of two threads
